@@ -8,15 +8,15 @@ LEVEL_TEXT = ("Property-based testing: generated inputs / operation sequences se
               "violations are shrunk and stored as replay files. Establishes the property on everything explored, never absence of defects.")
 
 CHECKS = {
-    "C02": dict(technique="property-based testing (Hypothesis) against a Python big-integer Montgomery model; boundary-constructed operands",
+    "C02": dict(technique="property-based testing (Hypothesis) against a Python big-integer Montgomery model; boundary-constructed operands; inversions, roots, symbols and powers followed by related calls (in place, result as argument, negation, zero)",
                 note="Trusted: Python integers, the forwarding shim. Operand domain: canonical values (< modulus) plus full-width inputs where the API accepts them.",
                 ref="DESIGN.md section 4, C02"),
 }
 
-CHECKS["C04"] = dict(technique="property-based testing against a from-scratch quotient-ring reference (schoolbook products mod u^2+1, v^3-(u+1), w^2-v; Frobenius as q-power map)",
+CHECKS["C04"] = dict(technique="property-based testing against a from-scratch quotient-ring reference (schoolbook products mod u^2+1, v^3-(u+1), w^2-v; Frobenius as q-power map); inversions followed by related ones (conjugates with the same norm, result as argument, in place)",
                      note="Trusted: Python integers, reference tower (self-tested without the library), pinned wire byte order of tower elements.",
                      ref="DESIGN.md section 4, C04")
-CHECKS["C05"] = dict(technique="property-based testing against an affine chord-and-tangent reference with constructed exceptional pairs (P+P, P+(-P), identities, z=1, other representatives)",
+CHECKS["C05"] = dict(technique="property-based testing against an affine chord-and-tangent reference with constructed exceptional pairs (P+P, P+(-P), identities, z=1, other representatives); each call followed by the same call on related arguments (negated point with the same z, other z)",
                      note="Trusted: Python integers, reference group law (self-tested without the library).",
                      ref="DESIGN.md section 4, C05")
 
@@ -27,7 +27,7 @@ CHECKS["C06"] = dict(technique="property-based testing against reference [k]P wi
 CHECKS["C03"] = dict(technique="differential property-based testing: every back end executable on the host (x86-64 BMI2 and baseline asm by symbol, dispatched members with either routine set, portable 64/32-bit words, the ARM binding layers compiled for the host) against each other and a Python integer oracle; ARM assembly sources under instruction interpreters; whole-API transcripts across back ends",
                      note="Trusted: Python integers; for the ARM sources our interpreters of the ~20 mnemonics used (no ARM hardware/qemu in the sandbox).",
                      ref="DESIGN.md section 4, C03")
-CHECKS["C18"] = dict(technique="differential property-based testing over the (operation x aliasing pattern) matrix generated from shim/ops.def, the irregular C++ signatures and the C API; aliased call vs distinct-output call",
+CHECKS["C18"] = dict(technique="differential property-based testing over the (operation x aliasing pattern) matrix generated from shim/ops.def, the irregular C++ signatures and the C API; aliased call vs distinct-output call; byte buffers and field elements that are members of the receiving object",
                      note="Trusted: the distinct-output call as specification (tied to the reference by C02-C07). __restrict operands are never aliased.",
                      ref="DESIGN.md section 4, C18")
 
@@ -41,11 +41,11 @@ CHECKS["C08"] = dict(technique="property-based testing over generated pair lists
                      note="Trusted: reference pairing / GT powers; single pairing decided by C01.",
                      ref="DESIGN.md section 4, C08")
 
-CHECKS["C09"] = dict(technique="property-based testing with structured mutations of valid encodings against a reference decoder (canonical bytes, curve equation, subgroup by reference [r]P), plus round-trip and cross-form oracles",
+CHECKS["C09"] = dict(technique="property-based testing with structured mutations of valid encodings against a reference decoder (canonical bytes, curve equation, subgroup by reference [r]P), plus round-trip and cross-form oracles and related follow-up calls (other decoder of the same length, negated point)",
                      note="Trusted: reference curve arithmetic; the greater-flag convention is taken from the library's own encoder.",
                      ref="DESIGN.md section 4, C09")
 
-CHECKS["C10"] = dict(technique="property-based testing: reference try-and-increment (Legendre by exponentiation) and masked single reduction as oracles, membership predicates by reference [r]P, structured random streams forcing rejections, cross-back-end determinism",
+CHECKS["C10"] = dict(technique="property-based testing: reference try-and-increment (Legendre by exponentiation) and masked single reduction as oracles, membership predicates by reference [r]P, structured random streams forcing rejections, cross-back-end determinism, samplers repeated on the same stream, a caller's own use of the shared multiplications beforehand",
                      note="Trusted: reference field/curve arithmetic. The choice between the two roots y is not constrained.",
                      ref="DESIGN.md section 4, C10")
 
